@@ -79,7 +79,7 @@ def harnesses(ctx):
     maxk = 4
     D = ['VX_BLOCKSIZE=%d' % (32 + 4 * maxk), 'VX_MAXK=%d' % maxk, 'VX_VEC_CAP=4']
     B = {'maxKeys': maxk, 'chain': 3, 'note': 'node::maxKeys instantiated at %d; the leaf has at most two ancestors in the harness (leaf, parent, grandparent = top)' % maxk}
-    hs = [Harness('bttail.layout', 'harness_layout', unwind=None, cpp=cpp, c=c, defines=D, must_have=['layout'], clause='C mirror structs have the layout of the extracted types'),
+    hs = [Harness('bttail.layout', 'harness_layout', unwind=None, cpp=cpp, c=c, defines=D, must_have=['layout'], bounded=B, clause='C mirror structs have the layout of the extracted types'),
           Harness('bttail.insert_tail', 'harness_tail', cpp=cpp, c=c, defines=D, enforce='h_tail', replace=['h_ros'], unwind=6, timeout=1500,
                   flags=['--bounds-check', '--pointer-check', '--signed-overflow-check', '--div-by-zero-check', '--undefined-shift-check', '--unwindset', '__CPROVER_contracts_write_set_check_assigns_clause_inclusion.0:20'], bounded=B, must_have=['postcondition', 'precondition'],
                   clause='leaf tail of btree::insert: the sphere of influence is write-locked and recorded before rebalance_or_split is called (its precondition); every lock taken is released; the leaf and its direct parent, which were modified, are released by end_write; the root lock is released by end_write whenever the root pointer changed; without a split the key is inserted at idx and the other keys keep their order',
